@@ -1,6 +1,7 @@
 package main
 
 import (
+	"errors"
 	"fmt"
 	"sort"
 	"strings"
@@ -11,14 +12,18 @@ import (
 	dxclient "github.com/hyperledger/aries-framework-go/pkg/client/didexchange"
 	lcclient "github.com/hyperledger/aries-framework-go/pkg/client/legacyconnection"
 	oobclient "github.com/hyperledger/aries-framework-go/pkg/client/outofband"
+	commonmodel "github.com/hyperledger/aries-framework-go/pkg/common/model"
 	"github.com/hyperledger/aries-framework-go/pkg/didcomm/common/service"
 	"github.com/hyperledger/aries-framework-go/pkg/didcomm/messaging/msghandler"
 	"github.com/hyperledger/aries-framework-go/pkg/didcomm/transport"
 	"github.com/hyperledger/aries-framework-go/pkg/doc/did"
 	"github.com/hyperledger/aries-framework-go/pkg/framework/aries"
+	vdrapi "github.com/hyperledger/aries-framework-go/pkg/framework/aries/api/vdr"
 	"github.com/hyperledger/aries-framework-go/pkg/framework/context"
 	"github.com/hyperledger/aries-framework-go/pkg/kms"
 	"github.com/hyperledger/aries-framework-go/pkg/store/connection"
+	"github.com/hyperledger/aries-framework-go/pkg/vdr/fingerprint"
+	spivdr "github.com/hyperledger/aries-framework-go/spi/vdr"
 
 	"verifharness/hx"
 )
@@ -82,6 +87,63 @@ func (p *pingSvc) HandleInbound(msg service.DIDCommMsg, ctx service.DIDCommConte
 	return "", nil
 }
 
+// pubVDR is a stub registry for public DIDs (method c10pub) shared by the agents of one network.
+type pubVDR struct {
+	mu   sync.Mutex
+	docs map[string]*did.Doc
+}
+
+func (v *pubVDR) Read(id string, _ ...spivdr.DIDMethodOption) (*did.DocResolution, error) {
+	v.mu.Lock()
+	defer v.mu.Unlock()
+
+	if d, ok := v.docs[id]; ok {
+		return &did.DocResolution{DIDDocument: d}, nil
+	}
+
+	return nil, vdrapi.ErrNotFound
+}
+
+func (v *pubVDR) Create(d *did.Doc, _ ...spivdr.DIDMethodOption) (*did.DocResolution, error) {
+	v.mu.Lock()
+	defer v.mu.Unlock()
+	v.docs[d.ID] = d
+
+	return &did.DocResolution{DIDDocument: d}, nil
+}
+
+func (v *pubVDR) Accept(method string, _ ...spivdr.DIDMethodOption) bool { return method == "c10pub" }
+func (v *pubVDR) Update(*did.Doc, ...spivdr.DIDMethodOption) error {
+	return errors.New("not supported")
+}
+func (v *pubVDR) Deactivate(string, ...spivdr.DIDMethodOption) error {
+	return errors.New("not supported")
+}
+func (v *pubVDR) Close() error { return nil }
+
+// PublishDID makes a public DID for the agent: a key of its own KMS, its endpoint.
+func (a *Agent) PublishDID(id string) (*did.Doc, error) {
+	_, pub, err := a.ctx.KMS().CreateAndExportPubKeyBytes(kms.ED25519Type)
+	if err != nil {
+		return nil, err
+	}
+
+	dk, _ := fingerprint.CreateDIDKey(pub)
+	vm := did.NewVerificationMethodFromBytes(id+"#key-1", "Ed25519VerificationKey2018", id, pub)
+	doc := &did.Doc{
+		Context:            []string{"https://www.w3.org/ns/did/v1"},
+		ID:                 id,
+		VerificationMethod: []did.VerificationMethod{*vm},
+		Authentication:     []did.Verification{{VerificationMethod: *vm, Relationship: did.Authentication}},
+		Service: []did.Service{{ID: id + "#didcomm", Type: "did-communication", Priority: 0, RecipientKeys: []string{dk},
+			ServiceEndpoint: commonmodel.NewDIDCommV1Endpoint(a.Endpoint)}},
+	}
+
+	_, err = a.net.pub.Create(doc)
+
+	return doc, err
+}
+
 // NewAgent starts a framework on the network.
 func NewAgent(n *Net, name string, cfg Config) (*Agent, error) {
 	a := &Agent{Name: name, Endpoint: scheme + name, net: n}
@@ -116,6 +178,7 @@ func NewAgent(n *Net, name string, cfg Config) (*Agent, error) {
 		aries.WithInboundTransport(a.inbound),
 		aries.WithOutboundTransports(&memOutbound{net: n, from: name}),
 		aries.WithMessageServiceProvider(reg),
+		aries.WithVDR(n.pub),
 	}
 
 	if cfg.KeyType != "" {
